@@ -16,7 +16,7 @@ from .c12 import apply_filters, event_pred
 
 ID = 'C13'
 LEVEL = 'exploration'
-RUNS = {'quick': 5000, 'thorough': 100000}
+RUNS = {'quick': 16000, 'thorough': 300000}
 CHUNK = 40
 PROBES = ['class_filter_bsd', 'class_filter_non_bsd', 'bsd_subclass_filter', 'tid_filter', 'process_filter_name', 'process_filter_pid',
           'helper_trace_class_hidden', 'helper_fs_class_hidden', 'helper_class_requested', 'repeat_request', 'callstacks_repeat',
